@@ -293,8 +293,9 @@ _MN_REST = _MN_FIRST + '0123456789-+/*)]<>=!?@^|'
 _UNIT_CH = 'ABCDEFGHIJKLMNOPQRSTUVWXYZabcdefghijklmnopqrstuvwxyz0123456789/.-%*^()'
 _TEXT_CH = 'ABCDEFGHIJKLMNOPQRSTUVWXYZabcdefghijklmnopqrstuvwxyz0123456789 .,:;-_/#~()\t\'"&%+='
 _DESC_CH = _TEXT_CH.replace(':', '')
-_COMMON_MNEM = ['DEPT', 'GR', 'RHOB', 'NPHI', 'CALI', 'DT', 'SP', 'ILD', 'ILM', 'SFLU', 'TENS', 'ETIM', 'BS', 'PEF']
-_COMMON_UNIT = ['M', 'FT', 'F', 'GAPI', 'G/C3', 'V/V', 'US/F', 'OHMM', 'MV', 'IN', 'LBS', 'S', 'K/M3', '1/S', 'DEG.C', '']
+_COMMON_MNEM = ['DEPT', 'GR', 'RHOB', 'NPHI', 'CALI', 'DT', 'SP', 'ILD', 'ILM', 'SFLU', 'TENS', 'ETIM', 'BS', 'PEF', 'BIT', 'CAL', 'DLGR', 'SFL', 'C1', 'C13', 'CGR', 'ACGR', 'CALI']
+# includes every key and (stripped) value of LASBase.UNITS_LAS_TO_LIS ('F' -> 'FEET', 'mts' -> 'M   ') and case variants
+_COMMON_UNIT = ['M', 'FT', 'F', 'mts', 'FEET', 'f', 'MTS', 'Mts', 'GAPI', 'G/C3', 'V/V', 'US/F', 'OHMM', 'MV', 'IN', 'LBS', 'S', 'K/M3', '1/S', 'DEG.C', '']
 _TEXT_VALUES = ['13:45:00', '12-JAN-2012', 'ANY OIL COMPANY INC.', 'WILDCAT #1', '12-34-56-78W5M', 'A.B:C.D', '08:00:30 UTC',
                 'One line per frame', 'CWLS LOG ASCII STANDARD - VERSION 2.0', '', 'N/A', 'a : b : c', '1.2.3', '1 2', '12h',
                 '0x10', '1e', '--1', '+-2', '1,5', 'yes please', 'NO.', 'e5', '.', '-', '+', '1.5.', '1e5e', 'Y', 'none']
@@ -431,7 +432,8 @@ def gen_content(rng, max_curves=6, max_frames=8, wrap=None, null=None, bad_rate=
         if mn not in [c_['mnem'] for c_ in curves]:
             curves[i]['mnem'], curves[i]['unit'] = mn, un
     if null is None:
-        null = rng.choice([['f', -99925, -2]] * 4 + [['f', -999250, -3], None, ['f', -9999, 0], ['i', -9999], ['f', -99999, -2], ['t', 'none'], ['b', 1]])
+        null = rng.choice([['f', -99925, -2]] * 4 + [['f', -999250, -3], None, ['f', -9999, 0], ['i', -9999], ['f', -99999, -2], ['t', 'none'], ['b', 1],
+                           ['i', 0], ['f', 0, 0], ['f', 0, -1], ['f', 0, 3], ['b', 0], ['t', '']])     # falsy-looking NULLs: 0, 0., 0.0, 0.e3, NO, empty
     wl = []
     for mn in ('STRT', 'STOP', 'STEP'):
         m, e = gen_decimal(rng, 8, 3)
